@@ -467,11 +467,12 @@ def carrier(t, rng, cap, depth=0):
     raise ValueError(t)
 
 
-def gen_cases(tier, seed):
+def gen_tables(tier, seed):
+    """per type tag: the carrier (every ordered pair over it becomes a pair row) and the triple cases"""
     rng = lib.rng_for(seed, PROP)
-    cap = 32 if tier == "quick" else 420
+    cap = 40 if tier == "quick" else 620
     tcap = 5 if tier == "quick" else 12
-    cases = []
+    tables, triples = {}, []
     for tag, t in TYPES.items():
         vals = carrier(t, rng, cap)
         if len(vals) > cap:
@@ -480,17 +481,56 @@ def gen_cases(tier, seed):
             rest = [v for v in vals if v not in keep]
             rng.shuffle(rest)
             vals = keep + rest[:cap - len(keep)]
-        for a in vals:
-            for b in vals:
-                cases.append(dict(mode="2", tag=tag, a=" ".join(enc(t, a)), b=" ".join(enc(t, b))))
+        tables[tag] = vals
         sub = list(vals)
         rng.shuffle(sub)
         sub = sub[:tcap]
         for a in sub:
             for b in sub:
                 for c in sub:
-                    cases.append(dict(mode="3", tag=tag, a=" ".join(enc(t, a)), b=" ".join(enc(t, b)), c=" ".join(enc(t, c))))
-    return cases
+                    triples.append(dict(mode="3", tag=tag, a=" ".join(enc(t, a)), b=" ".join(enc(t, b)), c=" ".join(enc(t, c))))
+    return tables, triples
+
+
+def model_rows(tables, extra):
+    """Coq side: rows (denote ty) over carrier x carrier (the carrier is elaborated once per coqc process as a
+    Definition, the pairs are built inside Coq by list_prod) and over the explicit extra pairs"""
+    out = {}
+
+    def read(index, res):
+        for (tag, keys), rs in zip(index, res):
+            t = TYPES[tag]
+            assert len(rs) == len(keys), (tag, len(rs), len(keys))
+            for key, r in zip(keys, rs):
+                assert r[0] == "R" and len(r) == 14, r
+                out[(tag, key)] = dict(j=from_coq(t, r[1]), m=from_coq(t, r[2]), jm=from_coq(t, r[3]), jmf=r[4], mm=from_coq(t, r[5]), mmf=r[6],
+                                       pc=from_coq_cmp(r[7]), eq=r[8], cmp="-" if r[9] == "None" else from_coq_cmp(r[9]),
+                                       abs1=from_coq(t, r[10]), abs2=from_coq(t, r[11]), wf_in=r[12], wf_out=r[13])
+    small_pre, small_exprs, small_index = PRELUDE, [], []
+    for tag, vals in tables.items():
+        t = TYPES[tag]
+        ty = coq_ty(t)
+        defn = "Definition vs_%s : list (carrier (denote %s)) := [%s].\n" % (tag, ty, "; ".join(coq_val(t, v) for v in vals))
+        step = max(1, 600 // max(1, len(vals)))
+        exprs, index = [], []
+        for i in range(0, len(vals), step):
+            ch = vals[i:i + step]
+            exprs.append("rows (denote %s) (list_prod ([%s] : list (carrier (denote %s))) vs_%s)" % (ty, "; ".join(coq_val(t, a) for a in ch), ty, tag))
+            index.append((tag, [(a, b) for a in ch for b in vals]))
+        if len(vals) > 64:
+            read(index, lib.coq_eval(PROP + "_" + tag, PRELUDE + defn, exprs, per_shard=max(1, len(exprs) // (3 * lib.NCPU))))
+        else:
+            small_pre += defn
+            small_exprs += exprs
+            small_index += index
+    for tag, keys in extra.items():
+        t = TYPES[tag]
+        for i in range(0, len(keys), 300):
+            ch = keys[i:i + 300]
+            small_exprs.append("rows (denote %s) [%s]" % (coq_ty(t), "; ".join("(%s, %s)" % (coq_val(t, a), coq_val(t, b)) for a, b in ch)))
+            small_index.append((tag, ch))
+    read(small_index, lib.coq_eval(PROP, small_pre, small_exprs, per_shard=max(1, len(small_exprs) // (3 * lib.NCPU))))
+    return out
 
 
 def case_line(c):
@@ -611,15 +651,20 @@ def tie(tier, seed, replay):
                              what="correspondence Lattice/LatModel.v bnd/ocmp of %s vs BoundedLattice / Ord impls" % coq_ty(t)))
         bounds[tag] = ib
     # --- cases
+    tables, triple_cases, extra_cases = {}, [], []
     if replay:
-        cases = [json.load(open(replay))["case"]]
-        cases = [c for c in cases if c.get("mode") in ("2", "3")]
+        extra_cases = [c for c in [json.load(open(replay))["case"]] if c.get("mode") in ("2", "3")]
     else:
         cp = os.path.join(lib.VERIF, "corpus", "C16.jsonl")
-        corpus = [json.loads(l) for l in open(cp) if l.strip()] if os.path.exists(cp) else []
-        cases = corpus + gen_cases(tier, seed)
+        extra_cases = [json.loads(l) for l in open(cp) if l.strip()] if os.path.exists(cp) else []
+        tables, triple_cases = gen_tables(tier, seed)
+    cases = list(extra_cases) + triple_cases
+    for tag, vals in tables.items():
+        t = TYPES[tag]
+        es = [" ".join(enc(t, v)) for v in vals]
+        cases += [dict(mode="2", tag=tag, a=ea, b=eb) for ea in es for eb in es]
     lines = lib.ds_run(binary, "lat", [case_line(c) for c in cases])
-    pairs, triples = {}, []
+    pairs, triples, extra = {}, [], {}
     for c, l in zip(cases, lines):
         t = TYPES[c["tag"]]
         if c["mode"] == "2":
@@ -627,24 +672,14 @@ def tie(tier, seed, replay):
             pairs.setdefault(c["tag"], {})[(a, b)] = (c, parse_pair(t, l))
         else:
             triples.append((c, t, [dec_all(t, c[x]) for x in "abc"], parse_triple(t, l)))
-    # --- model rows, batched: one Eval per <= 400 pairs of one type
-    exprs, index = [], []
-    for tag, tabp in pairs.items():
-        t = TYPES[tag]
-        keys = list(tabp)
-        for i in range(0, len(keys), 400):
-            ch = keys[i:i + 400]
-            exprs.append("rows (denote %s) [%s]" % (coq_ty(t), "; ".join("(%s, %s)" % (coq_val(t, a), coq_val(t, b)) for a, b in ch)))
-            index.append((tag, ch))
-    model = {}
-    for (tag, ch), res in zip(index, lib.coq_eval(PROP, PRELUDE, exprs, per_shard=max(1, len(exprs) // (4 * lib.NCPU)))):
-        t = TYPES[tag]
-        assert len(res) == len(ch), (tag, len(res), len(ch))
-        for key, r in zip(ch, res):
-            assert r[0] == "R" and len(r) == 14, r
-            model[(tag, key)] = dict(j=from_coq(t, r[1]), m=from_coq(t, r[2]), jm=from_coq(t, r[3]), jmf=r[4], mm=from_coq(t, r[5]), mmf=r[6],
-                                     pc=from_coq_cmp(r[7]), eq=r[8], cmp="-" if r[9] == "None" else from_coq_cmp(r[9]),
-                                     abs1=from_coq(t, r[10]), abs2=from_coq(t, r[11]), wf_in=r[12], wf_out=r[13])
+    tabset = {tag: set(vals) for tag, vals in tables.items()}
+    for c in extra_cases:
+        if c["mode"] == "2":
+            t = TYPES[c["tag"]]
+            a, b = dec_all(t, c["a"]), dec_all(t, c["b"])
+            if not (a in tabset.get(c["tag"], ()) and b in tabset.get(c["tag"], ())):
+                extra.setdefault(c["tag"], []).append((a, b))
+    model = model_rows(tables, extra)
     # --- compare
     dist, seen = {}, set()
     MODEL_FIELDS = ("j", "m", "jm", "jmf", "mm", "mmf", "pc", "eq", "cmp", "abs1", "abs2")
